@@ -330,17 +330,20 @@ where
         W_REM_EUCLID_INT => cur.rem_euclid_int(n),
         W_SHIFT => F::w_shift(cur, (y & 0xff) as usize % 12, x, (y >> 8) & 1 == 1, ((y >> 16) % 6) as u8),
         W_SUM => {
+            // y bit 1: over an empty iterator
+            let items: &[Wrapping<F>] = if y & 2 != 0 { &[] } else { hist };
             if y & 1 == 1 {
-                hist.iter().sum()
+                items.iter().sum()
             } else {
-                hist.iter().cloned().sum()
+                items.iter().cloned().sum()
             }
         }
         W_PRODUCT => {
+            let items: &[Wrapping<F>] = if y & 2 != 0 { &[] } else { hist };
             if y & 1 == 1 {
-                hist.iter().product()
+                items.iter().product()
             } else {
-                hist.iter().cloned().product()
+                items.iter().cloned().product()
             }
         }
         W_FROM_INT => lay::with_int!((y % 12) as usize, T => Wrapping::<F>::from_num(<T as lay::IntRaw>::from_raw(x))),
